@@ -223,7 +223,8 @@ def d_handler_balanced(self, old_self):
 def d_error_protocol(self, trace, raised):
     """C05: an error while computing resets the task: on_run_error invoked iff a data object existed, _data
     dropped, so that requesting again starts afresh"""
-    return ((not created(trace)) or (self._data is None and trace.count('on_run_error') == 1)) and \
+    load_failed = trace.has('load')
+    return ((not created(trace)) or (self._data is None and trace.count('on_run_error') == (0 if load_failed else 1))) and \
         (created(trace) or not trace.has('on_run_error'))
 
 
